@@ -18,8 +18,12 @@ simplification.  No input is ever chosen; the float `fingerprint` is only a hash
 pre-select which exact identities are attempted when interning `defined` atoms.
 """
 from fractions import Fraction
+import decimal
 import math
 import time
+from decimal import Decimal
+
+DCTX = decimal.Context(prec=70, Emax=999999999, Emin=-999999999)
 
 from .project import AnalysisError
 
@@ -174,7 +178,7 @@ def ekey(e):
 # ----------------------------------------------------------------------------- atoms
 
 class Atom:
-    __slots__ = ("id", "name", "kind", "positive", "unit", "idem", "defn", "cond", "args", "sign", "fp")
+    __slots__ = ("id", "name", "kind", "positive", "unit", "idem", "defn", "cond", "args", "sign", "fp", "cval")
 
     def __init__(self, id, name, kind, positive=False, unit=False, idem=False):
         self.id = id
@@ -188,6 +192,7 @@ class Atom:
         self.args = None
         self.sign = None    # known sign of a defined atom: '+', '-', '>=0', '<=0'
         self.fp = None
+        self.cval = None    # value of a positive-constant atom  #c
 
     def __repr__(self):
         return self.name
@@ -284,6 +289,7 @@ class Algebra:
         self.fold_enabled = True
         self.ranges = {}         # sym name -> (lo, hi) range for witness search
         self.opaque_rules = {}   # fname -> rule(args) -> RF or None (axioms of an uninterpreted function)
+        self._radicands = []     # (RF, fingerprint) of forms raised to fractional powers
         self._memo = {}
 
     # ------------------------------------------------------------------ budget
@@ -458,16 +464,20 @@ class Algebra:
 
     def needs_rewrite(self, p):
         """does polynomial p contain base atoms with |exponent| >= 1 or negative (to be
-        rewritten through their definition)?"""
+        rewritten through their definition), or constant atoms #c with an integer exponent
+        (to be folded back into the coefficient)?"""
         atoms = self.atoms
         for m in p:
             for a, e in m:
-                if atoms[a].kind == "base" and eis_num(e) and (e >= 1 or e < 0):
+                at = atoms[a]
+                if at.kind == "base" and eis_num(e) and (e >= 1 or e < 0):
+                    return True
+                if at.cval is not None and eis_num(e) and (e >= 1 or e < 0):
                     return True
         return False
 
     def rewrite_bases(self, rf):
-        """B^(n+f) -> E^n * B^f  with 0 <= f < 1"""
+        """B^(n+f) -> E^n * B^f  with 0 <= f < 1 ;  (#c)^(n+f) -> c^n * (#c)^f"""
         if not self.needs_rewrite(rf.num):
             return rf
         atoms = self.atoms
@@ -484,6 +494,12 @@ class Algebra:
                         rest.append((a, f))
                     t = self.pow(at.defn, n)
                     extra = t if extra is None else self.mul(extra, t)
+                elif at.cval is not None and eis_num(e) and (e >= 1 or e < 0):
+                    n = math.floor(e)
+                    f = enorm(Fraction(e) - n)
+                    if f != 0:
+                        rest.append((a, f))
+                    c = c * at.cval ** n
                 else:
                     rest.append((a, e))
             term = RF(self, {tuple(rest): c})
@@ -684,7 +700,10 @@ class Algebra:
         for f, mx in common.items():
             for _ in range(mx - db.get(f, 0)):
                 nb = self.pmul(nb, self.factors[f])
-        return self._mk(self.padd(na, nb, s), tuple(sorted(common.items())))
+        r = self._mk(self.padd(na, nb, s), tuple(sorted(common.items())))
+        if self.needs_rewrite(r.num):
+            r = self.rewrite_bases(r)     # products with denominator factors may complete a square root
+        return r
 
     def sub(self, a, b):
         return self.add(a, b, -1)
@@ -835,6 +854,20 @@ class Algebra:
             raise AnalysisError("fractional power of zero")
         if self.atoms_of(a, "defined"):
             a = self.expand_all(a)      # let sqrt see through named sub-expressions
+        # semantic interning of radicands: a rational form equal (in the ring) to one that was
+        # powered before is decomposed exactly like it
+        if a.den or len(a.num) > 1:
+            fpa = self.fingerprint(a)
+            for a0, fp0 in self._radicands:
+                if fpa is not None and fp0 is not None and _close(fpa, fp0) and a0 is not a:
+                    try:
+                        if self.key(a0) != self.key(a) and self.equal(a, a0, 8000):
+                            a = a0
+                            break
+                    except Budget:
+                        pass
+            else:
+                self._radicands.append((a, fpa))
         c, mono, q = self._content_split(a.num)
         res = None
         # constant
@@ -886,6 +919,7 @@ class Algebra:
         if name not in self.by_name:
             a = self._new_atom(name, "sym", positive=True)
             a.fp = float(c)
+            a.cval = Fraction(c)
             self.by_name[name] = a
         return RF(self, {((self.by_name[name].id, enorm(e)),): Fraction(1)})
 
@@ -1446,15 +1480,16 @@ class Algebra:
         return (0.2 + 2.8 * h) * (1.0 if h2 else -1.0)
 
     def evalf(self, rf, k, memo=None):
-        """float value of rf at pseudo-random point k (None if not evaluable)"""
+        """value of rf at pseudo-random point k in 70-digit decimal arithmetic (robust against
+        the cancellation of large expanded forms); None if not evaluable"""
         if memo is None:
             memo = self._memo.setdefault(k, {})
         try:
             v = self._ev_poly(rf.num, k, memo)
             for fid, mult in rf.den:
-                v /= self._ev_poly(self.factors[fid], k, memo) ** mult
+                v = DCTX.divide(v, DCTX.power(self._ev_poly(self.factors[fid], k, memo), mult))
             return v
-        except (ZeroDivisionError, ValueError, OverflowError, TypeError):
+        except (ZeroDivisionError, ValueError, OverflowError, TypeError, decimal.DecimalException):
             return None
 
     def _ev_atom(self, aid, k, memo):
@@ -1463,37 +1498,42 @@ class Algebra:
         at = self.atoms[aid]
         if at.kind in ("sym", "opaque"):
             if at.name.startswith("#"):
-                v = float(Fraction(at.name[1:]))
+                fr = Fraction(at.name[1:])
+                v = DCTX.divide(Decimal(fr.numerator), Decimal(fr.denominator))
             else:
-                v = self.point_value(at, k)
+                v = Decimal(repr(self.point_value(at, k)))
         elif at.kind in ("base", "defined"):
             v = self._ev_poly(at.defn.num, k, memo)
             for fid, mult in at.defn.den:
-                v /= self._ev_poly(self.factors[fid], k, memo) ** mult
+                v = DCTX.divide(v, DCTX.power(self._ev_poly(self.factors[fid], k, memo), mult))
         elif at.kind == "ind":
-            v = 1.0 if self._ev_poly(at.cond, k, memo) >= 0 else 0.0
+            v = Decimal(1) if self._ev_poly(at.cond, k, memo) >= 0 else Decimal(0)
         else:
-            v = 1.0
+            v = Decimal(1)
         memo[aid] = v
         return v
 
     def _ev_poly(self, p, k, memo):
         g = None
-        tot = 0.0
+        tot = Decimal(0)
         for m, c in p.items():
-            t = float(c)
+            t = DCTX.divide(Decimal(c.numerator), Decimal(c.denominator))
             for a, e in m:
                 v = self._ev_atom(a, k, memo)
                 if isinstance(e, QExp):
                     if g is None:
-                        g = self._ev_atom(self.gamma.id, k, memo) if self.gamma is not None else 1.4
-                    ee = e.value(g)
+                        g = self._ev_atom(self.gamma.id, k, memo) if self.gamma is not None else Decimal("1.4")
+                    n = sum((DCTX.multiply(Decimal(cc.numerator) / Decimal(cc.denominator), DCTX.power(g, i)) for i, cc in enumerate(e.num)), Decimal(0))
+                    d = sum((DCTX.multiply(Decimal(cc.numerator) / Decimal(cc.denominator), DCTX.power(g, i)) for i, cc in enumerate(e.den)), Decimal(0))
+                    ee = DCTX.divide(n, d)
+                elif type(e) is int:
+                    ee = e
                 else:
-                    ee = e if type(e) is int else float(e)
-                if v < 0 and type(ee) is not int:
-                    raise ValueError("negative base of fractional power")
-                t *= v ** ee
-            tot += t
+                    ee = DCTX.divide(Decimal(e.numerator), Decimal(e.denominator))
+                if type(ee) is not int and v <= 0:
+                    raise ValueError("non-positive base of fractional power")
+                t = DCTX.multiply(t, DCTX.power(v, ee))
+            tot = DCTX.add(tot, t)
         return tot
 
     def admissible(self, k):
@@ -1505,49 +1545,56 @@ class Algebra:
             for f in self.facts_nonneg:
                 if not self._ev_poly(f, k, memo) >= 0:
                     return False
-        except (ZeroDivisionError, ValueError, OverflowError):
+        except (ZeroDivisionError, ValueError, OverflowError, decimal.DecimalException):
             return False
         return True
 
-    def witness(self, a, b, npoints=6, tries=600, rtol=1e-6):
+    def witness(self, a, b, npoints=6, tries=600, rtol=1e-12):
         """search an admissible point where a and b differ.  Returns (status, info):
         'differ' with the witness, 'agree' if a and b agree at npoints admissible points,
         'nopoint' if too few admissible points were found."""
         found = 0
+        tol = Decimal(repr(rtol))
         for k in range(tries):
             if not self.admissible(k):
                 continue
             va, vb = self.evalf(a, k), self.evalf(b, k)
-            if va is None or vb is None or va != va or vb != vb:
+            if va is None or vb is None or va.is_nan() or vb.is_nan():
                 continue
             found += 1
-            if abs(va - vb) > rtol * max(1.0, abs(va), abs(vb)):
+            if abs(va - vb) > tol * max(Decimal(1), abs(va), abs(vb)):
                 pt = {}
                 memo = self._memo.get(k, {})
                 for aid, v in sorted(memo.items()):
                     at = self.atoms[aid]
                     if at.kind == "sym" and not at.name.startswith("#"):
-                        pt[at.name] = round(v, 6)
-                return "differ", {"point": pt, "lhs": va, "rhs": vb}
+                        pt[at.name] = round(float(v), 6)
+                return "differ", {"point": pt, "lhs": float(va), "rhs": float(vb)}
             if found >= npoints:
                 return "agree", {"points": found}
         return "nopoint", {"points": found}
 
     def decide_equal(self, a, b, term_budget=None):
-        """three-valued decision.  ('proved', None): exact ring identity.  ('refuted', w):
-        an admissible witness point where the extracted values differ (random
-        interpretation of the value graph).  ('undecided', why) otherwise."""
+        """three-valued decision.  ('proved', None): exact ring identity (tried first).
+        ('refuted', w): an admissible witness point where the extracted values differ
+        (random interpretation of the value graph in 70-digit arithmetic).
+        ('undecided', why) otherwise."""
+        exact = None
+        why = ""
+        try:
+            exact = self.equal(a, b, term_budget)
+        except Budget as e:
+            why = "exact proof exceeded its budget (%s)" % e
+        if exact is True:
+            return "proved", None
         st, info = self.witness(a, b)
         if st == "differ":
             return "refuted", info
-        try:
-            if self.equal(a, b, term_budget):
-                return "proved", None
-        except Budget as e:
-            return "undecided", "exact proof exceeded its budget (%s); values agree at %s sampled points" % (e, info.get("points"))
+        if exact is False:
+            return "undecided", "ring difference is non-zero but values agree on %s sampled points (dependent indicators?)" % info.get("points")
         if st == "agree":
-            return "undecided", "ring difference is non-zero but values agree on sampled points (dependent indicators?)"
-        return "undecided", "no admissible evaluation point found and no exact proof"
+            return "undecided", "%s; values agree at %s sampled points" % (why, info.get("points"))
+        return "undecided", "%s; no admissible evaluation point found" % why
 
     def diff(self, a, b):
         """fully expanded numerator of a-b (for reports)"""
